@@ -628,7 +628,8 @@ def primitives(x: Exc, f: FuncInfo, node: ast.AST, st, flow: KindFlow):
     """Yield (primitive label, argument text, [exception classes]) for one AST node."""
     K = lambda e: flow.kinds_of(e, st)  # noqa: E731
     if isinstance(node, ast.Assert):
-        yield "assert", _argtext(node.test), [ASE]
+        if not _assert_implied_by_callers(x, f, node):
+            yield "assert", _argtext(node.test), [ASE]
         return
     if isinstance(node, ast.Raise):
         if node.exc is not None:
@@ -859,6 +860,8 @@ def primitives(x: Exc, f: FuncInfo, node: ast.AST, st, flow: KindFlow):
                 safe = True  # split always returns at least one element; partition exactly three
             if isinstance(node.value, ast.Call) and callee_name(node.value) in ("partition", "rpartition") and isinstance(idx, ast.Constant) and idx.value in (0, 1, 2, -1, -2, -3):
                 safe = True
+            if not safe and _int_const(idx) is not None and isinstance(node.value, ast.Name):
+                safe = _const_index_within_len(f.node, node)
             if not safe:
                 ex.append(IE)
                 if index_below_len_guarded(f.node, node):
@@ -886,6 +889,103 @@ def primitives(x: Exc, f: FuncInfo, node: ast.AST, st, flow: KindFlow):
         if "O" not in k and k & _k("NBIF"):
             yield "iterate", f"{_argtext(node.iter)}\x00{''.join(sorted(k))}", [TE]
         return
+
+
+def _assert_implied_by_callers(x: Exc, f: FuncInfo, node: ast.Assert) -> bool:
+    """``assert P`` in a private method where P speaks only about ``self.<attributes>`` and every
+    call site ``self.<method>(...)`` in the class sits under a path condition that contains P
+    (the assertion restates for the type checker what the caller already tested)."""
+    from ..guards import canon, conditions
+
+    if f.cls is None or not f.name.startswith("_") or f.name.startswith("__"):
+        return False
+    test = node.test
+    for n in ast.walk(test):
+        if isinstance(n, ast.Name) and n.id != "self" and not (n.id[:1].isupper() or n.id in ("isinstance", "hasattr", "callable", "None")):
+            return False  # mentions a local or a parameter: the caller's fact is about other objects
+    # the attributes it speaks of are not stored to in the method before the assert
+    for n in ast.walk(f.node):
+        if isinstance(n, ast.Attribute) and isinstance(n.ctx, (ast.Store, ast.Del)) and isinstance(n.value, ast.Name) and n.value.id == "self":
+            return False
+    want = canon(test)
+    sites = 0
+    for g in f.cls.methods.values():
+        if g.qual == f.qual:
+            continue
+        for st, cs in conditions(g.node):
+            if isinstance(st, (ast.If, ast.For, ast.AsyncFor, ast.While, ast.With, ast.AsyncWith, ast.Try)):
+                continue
+            for c in ast.walk(st):
+                if isinstance(c, ast.Call) and isinstance(c.func, ast.Attribute) and c.func.attr == f.name and isinstance(c.func.value, ast.Name) and c.func.value.id == "self":
+                    sites += 1
+                    if want not in {canon(k) for k in cs}:
+                        return False
+    return sites > 0
+
+
+def _int_const(e):
+    """the value of an integer literal, `-1` (a unary minus in the AST) included; None otherwise"""
+    if isinstance(e, ast.Constant) and isinstance(e.value, int) and not isinstance(e.value, bool):
+        return e.value
+    if isinstance(e, ast.UnaryOp) and isinstance(e.op, ast.USub) and isinstance(e.operand, ast.Constant) and isinstance(e.operand.value, int) and not isinstance(e.operand.value, bool):
+        return -e.operand.value
+    return None
+
+
+def _const_index_within_len(fn: ast.AST, sub: ast.Subscript) -> bool:
+    """``seq[K]`` with an integer constant K is reached only where the path conditions bound
+    ``len(seq)`` from below far enough: ``len(seq) == n`` / ``>= n`` / ``> n`` (also as the negation
+    of an earlier ``if len(seq) < n: return``), or the truthiness of ``seq`` (at least one).
+    The sequence must not be rebound or mutated in the function after its first binding."""
+    from ..astutil import _rebinds
+    from ..guards import conditions
+
+    seq, k = sub.value.id, _int_const(sub.slice)
+    need = k + 1 if k >= 0 else -k
+    # one binding at most, no in-place mutation
+    binds = [n for n in ast.walk(fn) if isinstance(n, ast.Name) and n.id == seq and isinstance(n.ctx, (ast.Store, ast.Del))]
+    if len(binds) > 1:
+        return False
+    for st in ast.walk(fn):
+        if isinstance(st, ast.Call) and isinstance(st.func, ast.Attribute) and isinstance(st.func.value, ast.Name) and st.func.value.id == seq and st.func.attr in ("pop", "remove", "clear", "__delitem__"):
+            return False
+        if isinstance(st, ast.Delete) and any(isinstance(t, ast.Subscript) and isinstance(t.value, ast.Name) and t.value.id == seq for t in st.targets):
+            return False
+
+    def is_len(e) -> bool:
+        return isinstance(e, ast.Call) and isinstance(e.func, ast.Name) and e.func.id == "len" and len(e.args) == 1 and isinstance(e.args[0], ast.Name) and e.args[0].id == seq
+
+    def lower_bound(c) -> int:
+        if isinstance(c, ast.Name) and c.id == seq:
+            return 1
+        if isinstance(c, ast.Compare) and len(c.ops) == 1:
+            l, op, r = c.left, c.ops[0], c.comparators[0]
+            if is_len(l) and isinstance(r, ast.Constant) and isinstance(r.value, int):
+                n = r.value
+                if isinstance(op, ast.Eq):
+                    return n
+                if isinstance(op, ast.GtE):
+                    return n
+                if isinstance(op, ast.Gt):
+                    return n + 1
+                if isinstance(op, ast.NotEq) and n == 0:
+                    return 1
+            if is_len(r) and isinstance(l, ast.Constant) and isinstance(l.value, int):
+                n = l.value
+                if isinstance(op, ast.Eq):
+                    return n
+                if isinstance(op, ast.LtE):
+                    return n
+                if isinstance(op, ast.Lt):
+                    return n + 1
+        return 0
+
+    for st, cs in conditions(fn):
+        if isinstance(st, (ast.If, ast.For, ast.While, ast.With, ast.Try)):
+            continue
+        if any(x is sub for x in ast.walk(st)):
+            return max([lower_bound(c) for c in cs] + [0]) >= need
+    return False
 
 
 def _is_external(x: Exc, f: FuncInfo, recv: ast.AST) -> bool:
